@@ -66,6 +66,7 @@ struct Stats {
   uint64_t compared = 0, nontrivial = 0, exec_true = 0, exec_false = 0, cex = 0;
   uint64_t switches = 0, lib_preempt = 0, runs_two_preempted = 0, static_checks = 0, static_rebaselined = 0, yields_cb = 0, colocated = 0;
   std::set<uint64_t> keys;                     // distinct-nontrivial measure
+  uint64_t digest = 0;                         // digest of everything the run's operations returned (+ interleaving log for C14)
 };
 
 static uint64_t env_twin(uint64_t env) { uint64_t e = env * 0x9E3779B97F4A7C15ull + 7; if ((e & 7) == (env & 7)) e ^= 1; return e | 8; }
@@ -146,7 +147,7 @@ static bool case_c10(const Plan& pl, Stats& st, Violation& v, bool enumerate) {
     return c10_fault_run(pl, a, ft.op, ft.alloc, ft.kind, st, v, kind);
   }
   sim_status_run(g_cur_run, 1, 0, 0);
-  RunOut a; exec_seq(pl, ctl, a); ++st.evals; st.steps += a.steps;
+  RunOut a; exec_seq(pl, ctl, a); ++st.evals; st.steps += a.steps; st.digest = run_digest(a);
   if (pl.variant == 2 && !enumerate) { sim_status_run(g_cur_run, 2, 0, 0); RunCtl cv = ctl; cv.env = env_twin(pl.env); RunOut x; exec_seq(pl, cv, x); ++st.evals; }
   if (pl.variant == 3 && !enumerate) { sim_status_run(g_cur_run, 3, 0, 0); RunCtl cv = ctl; cv.nothrow_fail_all = true; RunOut x; exec_seq(pl, cv, x); ++st.evals; }
   bool bad = false; std::string why;
@@ -206,7 +207,7 @@ static bool case_c10(const Plan& pl, Stats& st, Violation& v, bool enumerate) {
 static bool case_c12(const Plan& pl, Stats& st, Violation& v) {
   RunCtl ctl; ctl.env = pl.env; ctl.model = 1;
   sim_status_run(g_cur_run, 1, 0, 0);
-  RunOut a; exec_seq(pl, ctl, a); ++st.evals; st.steps += a.steps;
+  RunOut a; exec_seq(pl, ctl, a); ++st.evals; st.steps += a.steps; st.digest = run_digest(a);
   bool found = false;
   for_each_res(a, [&](const OpResult& o) {
     if (o.compared) { ++st.compared; if (o.nontrivial) { ++st.nontrivial; st.keys.insert(tag64(o.shape.c_str())); } }
@@ -312,6 +313,7 @@ static bool case_c14(const Plan& pl0, Stats& st, Violation& v) {
     for (size_t k = 0; k < nlog; ++k) { h ^= ((uint64_t)log[k].task << 56) ^ (log[k].ran << 20) ^ ((uint64_t)log[k].at_guard << 2) ^ (uint64_t)log[k].why; h *= 1099511628211ull; h ^= h >> 29; steps += log[k].ran; if (log[k].why == 1) ++st.yields_cb; }
     st.steps += steps;
     if (sr.tasks_preempted_in_lib >= 2 && rep == 0) { ++st.runs_two_preempted; st.keys.insert(h); }
+    if (rep == 0) st.digest = run_digest(ref) ^ (h * 0x9E3779B97F4A7C15ull);
     // explicit schedule for the replay file
     Plan exp = pl; if (!cc.explicit_sched) { exp.sched = cc.taken; }
     if (ft.op >= 0) { exp.faults.clear(); exp.faults.push_back(pl.faults[0]); }
@@ -363,6 +365,7 @@ int main(int argc, char** argv) {
   std::string cmd = argv[1];
   const char* status = getenv("SIM_STATUS_FILE");
   rt_init(status);
+  work_warmup();
   g_static_monitor = getenv("SIM_STATIC_MONITOR") != nullptr;
   if (getenv("SIM_FAULT_CAP")) g_fault_cap = atoi(getenv("SIM_FAULT_CAP"));
   if (getenv("SIM_MAX_PHASE")) g_max_phase = atoi(getenv("SIM_MAX_PHASE"));
@@ -382,6 +385,11 @@ int main(int argc, char** argv) {
     Plan p; std::string err;
     if (!plan_from_text(read_file(argv[2]), p, err)) { fprintf(stderr, "bad plan: %s\n", err.c_str()); return 2; }
     g_cur_run = p.run;
+    if (getenv("SIM_REPEAT")) {   // debugging aid: per-repetition step counts and the guards whose hit count differs
+      int n = atoi(getenv("SIM_REPEAT"));
+      for (int i = 0; i < n; ++i) { Stats s1; Violation v1; rt_clear_guard_hits(); run_case(p, s1, v1, enumerate); printf("REPEAT %d steps=%" PRIu64 "\n", i, s1.steps); }
+      return 0;
+    }
     Stats st; Violation v;
     bool bad = run_case(p, st, v, enumerate);
     if (bad) {
@@ -406,9 +414,15 @@ int main(int argc, char** argv) {
       g_cur_run = r;
       if (done < 2) samples += plan_to_text(p) + "\n";
       printf("START %" PRIu64 "\n", r); fflush(stdout);
+      if (getenv("SIM_GUARD_COUNTS")) memset(rt_guard_counts(true), 0, (rt_num_guards() + 2) * 4);
       Stats one; Violation v;
       bool bad = run_case(p, one, v, true);
       if (g_aborted) break;
+      if (getenv("SIM_GUARD_COUNTS") && r == strtoull(getenv("SIM_GUARD_COUNTS_RUN") ? getenv("SIM_GUARD_COUNTS_RUN") : "0", nullptr, 10)) {
+        FILE* f = fopen(getenv("SIM_GUARD_COUNTS"), "w"); uint32_t* c = rt_guard_counts(true);
+        for (uint32_t g = 1; g <= rt_num_guards(); ++g) if (c[g]) fprintf(f, "%u %u %#" PRIx64 "\n", g, c[g], rt_guard_pc(g));
+        fclose(f);
+      }
       st.evals += one.evals; st.steps += one.steps; st.fault_runs += one.fault_runs; st.nothrow_fault_runs += one.nothrow_fault_runs; st.fault_fired_in_lib += one.fault_fired_in_lib;
       st.leaked_after_fault += one.leaked_after_fault; st.twin_runs += one.twin_runs; st.compared += one.compared; st.nontrivial += one.nontrivial; st.cex += one.cex; st.switches += one.switches;
       st.lib_preempt += one.lib_preempt; st.runs_two_preempted += one.runs_two_preempted; st.static_checks += one.static_checks; st.static_rebaselined += one.static_rebaselined; st.yields_cb += one.yields_cb; st.colocated += one.colocated;
@@ -419,7 +433,7 @@ int main(int argc, char** argv) {
         v.plan.expect = v.cls; write_file(pf, plan_to_text(v.plan)); write_file(pf + ".detail", v.detail + "\n");
         printf("VIOL %" PRIu64 " class=%s file=%s sig=%s\n", r, v.cls.c_str(), pf.c_str(), v.sig.c_str());
       }
-      printf("END %" PRIu64 " evals=%" PRIu64 " steps=%" PRIu64 " faults=%" PRIu64 " keys=%zu\n", r, one.evals, one.steps, one.fault_runs, one.keys.size()); fflush(stdout);
+      printf("END %" PRIu64 " dig=%016" PRIx64 " evals=%" PRIu64 " steps=%" PRIu64 " faults=%" PRIu64 " keys=%zu\n", r, one.digest, one.evals, one.steps, one.fault_runs, one.keys.size()); fflush(stdout);
       if (nviol >= 60) break;
     }
     // dump coverage and keys for the evidence file
